@@ -1,3 +1,4 @@
+import re
 """C15 — diagnostics name the file and line of the offending construct (DESIGN §4 C15)."""
 from hir import (nodes, walk, fn_body, callee, last, line_of, peel, peel_clone, pp, norm_path, pat_bindings)
 from flow import Flow
@@ -467,6 +468,34 @@ def node_span(F, rep):
                     "field) are reported at whatever follows it - on the next line when a line break follows"
                     % (ty, pp(se)[:40], common[0])), line_of(s))
     rep.floor("NODE-SPAN", "node constructions", n, 30)
+    # an operator node is located at its operator: the type checker reports `+ is not defined for ..` at the node's span, and
+    # an operand can start lines above the operator that does not fit it (a chain continued over line breaks)
+    for fname in ("infix", "unary"):
+        fn = F.fn("sylt_parser::expression::" + fname)
+        fl = Flow(fn, fn_body(fn))
+        k_ = 0
+        for s in nodes(fn_body(fn), "Call"):
+            if (callee(s) or "") not in ("sylt_parser::expression::Expression::new", "sylt_parser::Expression::new"):
+                continue
+            kind = peel_clone(s["args"][1]) if len(s["args"]) > 1 else {}
+            ko = fl.origin.get(kind.get("hid")) if kind.get("k") == "Path" else None
+            ktxt = pp(ko["src"]) if ko and ko.get("src") is not None else pp(kind)
+            if not re.search(r"\b(Add|Sub|Mul|Div|Neg|Not|And|Or|Comparison|AssertEq)\(", ktxt):
+                continue      # not an operator node (a postfix form wrapped in Get ..)
+            k_ += 1
+            se = peel_clone(s["args"][0])
+            src = None
+            if se.get("k") == "Path" and se.get("res") == "Local":
+                o = fl.origin.get(se["hid"])
+                if o and o.get("src") is not None:
+                    src = peel_clone(o["src"])
+                    pth = o["path"]
+            ok = isinstance(src, dict) and src.get("k") == "MethodCall" and src["m"] == "eat" and pth == (("tuple", 1),)
+            rep.ob("NODE-SPAN", "%s|operator-token#%d" % (fname, k_), ok,
+                   "the operator node built by %s() is located at the operator token it ate" % fname if ok else
+                   "the operator node built by %s() takes its span from `%s`, not from the operator token: `+ is not defined for 'int' "
+                   "and 'str'` is reported where the left operand starts - lines above, when the chain is continued over line breaks"
+                   % (fname, pp(src)[:40] if isinstance(src, dict) else pp(se)), line_of(s))
 
 
 def guard_location(F, rep):
